@@ -174,9 +174,14 @@ def mexpr(draw, depth):
         lambda d: lit("M", [[k, v] for k, v in d.items()]))
     if depth <= 0:
         return draw(st.one_of(st.just(var("M", "m0")), lit_m))
-    k = draw(st.integers(0, 2))
+    k = draw(st.integers(0, 3))
     if k == 0:
         return ["bin", "M", "+", draw(mexpr(depth - 1)), draw(mexpr(depth - 1))]
+    if k == 1:
+        # a one-pair mapping with computed key and value: inside a loop this grows m0 one insertion at a time through '+' / '+='
+        key = draw(st.one_of(iexpr(1), st.builds(lambda v, m, a: ["bin", "I", "+", ["bin", "I", "*", var("I", v), lit("I", m)], lit("I", a)],
+                                                 st.sampled_from(["j0", "j1", "i1"]), st.sampled_from([1, 3, 8, 16, 17, 4096]), st.integers(-2, 40))))
+        return ["mk1", "M", key, draw(iexpr(1))]
     return draw(mexpr(0))
 
 
@@ -192,7 +197,15 @@ ASSIGNABLE = {"I": ["i0", "i1", "i2"], "F": ["f0"], "S": ["s0"], "A": ["a0"], "M
 @st.composite
 def stmt(draw, depth, ctx):
     """ctx: dict(in_loop, in_switch, loopvars free list, helpers)"""
-    k = draw(st.integers(0, 13))
+    k = draw(st.integers(0, 14))
+    if k == 14 and ctx["loopvars"] and depth > 0:
+        # grow m0 pair by pair through '+=' (sibling spellings: m0 = m0 + ..., and the loop forms), crossing the hash-table growth points
+        v = ctx["loopvars"][0]
+        key = ["bin", "I", "+", ["bin", "I", "*", var("I", v), lit("I", draw(st.sampled_from([1, 1, 3, 8, 16, 17, 4096])))], lit("I", draw(st.integers(-2, 40)))]
+        body = [["assign", ["v", "M", "m0"], "+=", ["mk1", "M", key, draw(iexpr(1))]]]
+        if draw(st.booleans()):
+            body.append(["assign", ["v", "I", "i1"], "+=", ["midx", "I", var("M", "m0"), key]])
+        return ["for", v, lit("I", draw(st.integers(-2, 2))), lit("I", draw(st.sampled_from([5, 8, 13, 20, 40]))), body]
     if k <= 3 or depth <= 0:
         T = draw(st.sampled_from(["I", "I", "I", "F", "S", "A", "M"]))
         tk = draw(st.integers(0, 5))
@@ -377,6 +390,8 @@ class Render:
             return "%s[%s..%s]" % (self.e(x[2]), self.e(x[3]), self.e(x[4]))
         if k == "sizeof":
             return "sizeof(%s)" % self.e(x[2])
+        if k == "mk1":
+            return "([ %s : %s ])" % (self.e(x[2]), self.e(x[3]))
         if k == "arr":
             return "({ " + ", ".join(self.e(y) for y in x[2]) + " })"
         if k == "tofloat":
